@@ -8,7 +8,7 @@ from mc import pool, seams, canon, factory_engine as F
 from . import c12
 
 CHARS = ["a", " ", "é", "#", ":", '"', "F", "à", "Ѕ"]  # à = c3 a0, Ѕ = d0 85: last UTF-8 byte looks like NBSP / NEL
-MARKERS = [("# Filter: ", "# Description: "), ("# rule:", "# info:"), ("#N ", "#D ")]
+MARKERS = [("# Filter: ", "# Description: "), ("# rule:", "# info:"), ("#N ", "#D "), ("# Règle : ", "# Détail → ")]
 
 
 def texts(maxlen, markers):
